@@ -78,7 +78,7 @@ def path_stem(draw, long_bias=0.25):
     return kind + body + b"|"
 
 
-HOST_VOCAB = [b"h:com|", b"h:fr|", b"h:a|", b"h:b|", b"h:www|", b"h:twitter|", b"h:c|"]
+HOST_VOCAB = [b"h:com|", b"h:fr|", b"h:a|", b"h:b|", b"h:www|", b"h:twitter|", b"h:c|", b"h:WWW|"]
 SPECIAL_HOSTS = [b"h:localhost|", b"h:127.0.0.1|", b"h:\xff\xfe|", b"h:LOCALHOST|", b"h:[FE80::1]|", b"h:[fe80::1]|"]
 SCHEMES = [b"s:http|", b"s:http|", b"s:https|", b"s:https|", b"s:ftp|"]
 PORTS = [b"t:80|", b"t:8080|"]
